@@ -390,11 +390,18 @@ def conversion_exc_rule(ctx, r):
     p = ctx.p
     smod = p.modules.get("clikit.utils.string")
     ctx.require(smod is not None, "clikit.utils.string missing")
-    for fn in [f for f in smod.functions.values() if f.name.startswith("parse_")]:
+    fns, binds = converter_helpers(smod)
+    for fn in fns:
         cfg = ctx.cfg(fn)
         for c in q.calls(fn):
+            convs = None
             if isinstance(c.func, ast.Name) and c.func.id in IMPLICIT:
-                need = set(IMPLICIT[c.func.id])
+                convs = {c.func.id}
+            elif isinstance(c.func, ast.Name) and (fn.name, c.func.id) in binds:
+                # the conversion is a parameter of a shared helper: it stands for every builtin a converter passes in
+                convs = binds[(fn.name, c.func.id)]
+            if convs:
+                need = {e for b in convs for e in IMPLICIT[b]}
                 covered = set()
                 raises_value_error = True
                 for cn in cfg.nodes_of(c):
@@ -422,6 +429,33 @@ def conversion_exc_rule(ctx, r):
         for n in q.raises(fn):
             if n.exc is not None and not norm(n.exc).startswith("ValueError"):
                 r.fail(fn, n, norm(n), "converter raises %s instead of ValueError" % norm(n.exc)[:40])
+
+
+def converter_helpers(smod):
+    """the converters of utils.string (parse_*) plus the module-level helpers they delegate to; and, for a helper, which builtin
+    conversions each of its parameters is bound to at the converters' call sites: {(helper, param): {"int", ...}}"""
+    fns = [f for f in smod.functions.values() if f.name.startswith("parse_")]
+    binds = {}
+    work = list(fns)
+    while work:
+        fn = work.pop()
+        for c in q.calls(fn):
+            if isinstance(c.func, ast.Name) and c.func.id in smod.functions and c.func.id != fn.name:
+                h = smod.functions[c.func.id]
+                if h not in fns:
+                    fns.append(h)
+                    work.append(h)
+                for i, a in enumerate(c.args):
+                    if i < len(h.params):
+                        b = a.id if isinstance(a, ast.Name) and a.id in IMPLICIT else None
+                        if b is None and isinstance(a, ast.Name) and (fn.name, a.id) in binds:
+                            binds.setdefault((h.name, h.params[i]), set()).update(binds[(fn.name, a.id)])
+                        elif b is not None:
+                            binds.setdefault((h.name, h.params[i]), set()).add(b)
+                for kw in c.keywords:
+                    if kw.arg and isinstance(kw.value, ast.Name) and kw.value.id in IMPLICIT:
+                        binds.setdefault((h.name, kw.arg), set()).add(kw.value.id)
+    return fns, binds
 
 
 def _nonempty_fact(e, name):
